@@ -407,14 +407,15 @@ func H03f_publish_setters() {
 	}
 	// what the broker does when it forwards: downgrade QoS, clear/restore retain
 	q := vrtByte("newqos")
-	vrtAssume(q <= (p.Flags>>1)&3)
+	vrtAssume(q <= 2)
+	raised := (p.Flags>>1)&3 == 0 && q > 0 // a relay may also raise the QoS of a message it received
 	vrtAssert("C03.setqos_ok", m.SetQoS(q) == nil)
 	r := vrtBool("newretain")
 	m.SetRetain(r)
 	p.Flags = p.Flags&0x08 | q<<1 | vrtB2b(r, 1)
 	if q == 0 {
 		p.ID = 0
-	} else if vrtBool("renumber") {
+	} else if raised || vrtBool("renumber") {
 		// a decoded message sent on under a new identifier (bridging, re-publishing from a callback)
 		nid := vrtUint16("newid")
 		vrtAssume(nid != 0)
